@@ -6,11 +6,11 @@
 (* written to one cell increase with time because each cell has a single   *)
 (* writer), QBegin/QEnd (a reader client's full-range query and the rows   *)
 (* it returned), Flush/Reorg/Close begin and end. The store itself is not  *)
-(* observed: the moment a write takes effect (Apply, between WBegin and     *)
-(* WAck) is an internal step left to TLC.                                  *)
+(* observed: a write takes effect at an unknown instant between WBegin and *)
+(* WAck, so between these two events the cell may hold the old or the new  *)
+(* value (store[cell] is the SET of values the cell may currently hold).   *)
 (*                                                                         *)
-(* A history is accepted iff TLC can place the Apply steps so that every   *)
-(* query result is explained:                                              *)
+(* A history is accepted iff every query result is explained:              *)
 (*   - each returned cell value is a value that cell held at some instant  *)
 (*     between QBegin and QEnd (so it includes every write acknowledged    *)
 (*     before QBegin, contains nothing that was never written, and nothing *)
@@ -24,7 +24,7 @@ EXTENDS Integers, Sequences, FiniteSets, TLC, Json
 
 Trace == ndJsonDeserialize("trace.ndjson")
 
-VARIABLES store,    \* cell -> current value (0 = never written)
+VARIABLES store,    \* cell -> set of values the cell may currently hold ({0} = never written)
           pend,     \* writer client -> [w, cell, applied] or NoWrite
           open,     \* query id -> [c, seen] for queries in progress; seen: cell -> set of values held since QBegin
           last,     \* client -> cell -> last value this client has been shown
@@ -42,7 +42,7 @@ ToSet(s) == {s[i] : i \in 1..Len(s)}
 TraceReset ==
   /\ IsEvent("Reset")
   /\ cells' = ToSet(Trace[l].cells) /\ clients' = ToSet(Trace[l].clients)
-  /\ store' = [c \in ToSet(Trace[l].cells) |-> 0]
+  /\ store' = [c \in ToSet(Trace[l].cells) |-> {0}]
   /\ pend' = [c \in ToSet(Trace[l].clients) |-> NoWrite]
   /\ open' = << >>
   /\ last' = [c \in ToSet(Trace[l].clients) |-> [x \in ToSet(Trace[l].cells) |-> 0]]
@@ -50,25 +50,20 @@ TraceReset ==
 
 WBegin ==
   /\ IsEvent("WBegin")
-  /\ LET c == Trace[l].c IN
+  /\ LET c == Trace[l].c  x == Trace[l].cell  w == Trace[l].w IN
        /\ pend[c] = NoWrite
-       /\ Trace[l].cell \in cells
-       /\ pend' = [pend EXCEPT ![c] = [w |-> Trace[l].w, cell |-> Trace[l].cell, applied |-> FALSE]]
-  /\ UNCHANGED <<store, open, last, cells, clients, closing>>
-
-\* internal: the write takes effect; every query in progress may now see the new value
-Apply(c) ==
-  /\ pend[c] # NoWrite /\ ~pend[c].applied
-  /\ store' = [store EXCEPT ![pend[c].cell] = pend[c].w]
-  /\ pend' = [pend EXCEPT ![c].applied = TRUE]
-  /\ open' = [q \in DOMAIN open |-> [open[q] EXCEPT !.seen[pend[c].cell] = @ \cup {pend[c].w}]]
-  /\ UNCHANGED <<last, cells, clients, closing, l>>
+       /\ x \in cells
+       /\ pend' = [pend EXCEPT ![c] = [w |-> w, cell |-> x, applied |-> FALSE]]
+       /\ store' = [store EXCEPT ![x] = @ \cup {w}]                 \* from now on the cell may hold w
+       /\ open' = [q \in DOMAIN open |-> [open[q] EXCEPT !.seen[x] = @ \cup {w}]]
+  /\ UNCHANGED <<last, cells, clients, closing>>
 
 WAck ==
   /\ IsEvent("WAck")
-  /\ pend[Trace[l].c] # NoWrite /\ pend[Trace[l].c].applied      \* acknowledged => it has taken effect
+  /\ pend[Trace[l].c] # NoWrite
+  /\ store' = [store EXCEPT ![pend[Trace[l].c].cell] = {pend[Trace[l].c].w}]   \* acknowledged: it holds w now
   /\ pend' = [pend EXCEPT ![Trace[l].c] = NoWrite]
-  /\ UNCHANGED <<store, open, last, cells, clients, closing>>
+  /\ UNCHANGED <<open, last, cells, clients, closing>>
 
 \* a failed write is tolerated only while the shard is being closed; it may or may not have taken effect
 WErr ==
@@ -80,7 +75,7 @@ QBegin ==
   /\ IsEvent("QBegin")
   /\ Trace[l].q \notin DOMAIN open
   /\ open' = [q \in DOMAIN open \cup {Trace[l].q} |->
-                IF q = Trace[l].q THEN [c |-> Trace[l].c, seen |-> [x \in cells |-> {store[x]}]] ELSE open[q]]
+                IF q = Trace[l].q THEN [c |-> Trace[l].c, seen |-> [x \in cells |-> store[x]]] ELSE open[q]]
   /\ UNCHANGED <<store, pend, last, cells, clients, closing>>
 
 RowsFn(rows) == [x \in cells |-> IF \E i \in 1..Len(rows) : rows[i][1] = x
@@ -115,7 +110,6 @@ CloseBegin == /\ IsEvent("CloseBegin") /\ closing' = TRUE
               /\ UNCHANGED <<store, pend, open, last, cells, clients>>
 
 TraceNext == TraceReset \/ WBegin \/ WAck \/ WErr \/ QBegin \/ QEnd \/ QErr \/ Noop \/ CloseBegin
-             \/ \E c \in clients : Apply(c)
 
 TraceInit == /\ store = << >> /\ pend = << >> /\ open = << >> /\ last = << >>
              /\ cells = {} /\ clients = {} /\ closing = FALSE /\ l = 1 /\ TLCSet(1, 1)
